@@ -591,7 +591,7 @@ class Tr:
             return self.T(rest, env, k, loop)
         if isinstance(st, ast.With):
             return self.T(list(st.body) + rest, env, k, loop)
-        if isinstance(st, ast.Return):
+        if isinstance(st, ast.Return) and not isinstance(st.value, ast.IfExp):
             if st.value is None:
                 return [self.result(env, "()")]
             b, c, t = self.E(st.value, env)
@@ -615,6 +615,20 @@ class Tr:
             return loop[0](env)
         if isinstance(st, ast.Break):
             return loop[1](env)
+        if isinstance(st, ast.Assign) and isinstance(st.value, ast.IfExp) and len(st.targets) == 1:
+            # x = A if c else B   ==>   if c: x = A   else: x = B   (the branches may raise)
+            v = st.value
+            new = ast.If(test=v.test, body=[ast.Assign(targets=st.targets, value=v.body)],
+                         orelse=[ast.Assign(targets=st.targets, value=v.orelse)])
+            ast.copy_location(new, st)
+            ast.fix_missing_locations(new)
+            return self.T([new] + rest, env, k, loop)
+        if isinstance(st, ast.Return) and isinstance(st.value, ast.IfExp):
+            v = st.value
+            new = ast.If(test=v.test, body=[ast.Return(value=v.body)], orelse=[ast.Return(value=v.orelse)])
+            ast.copy_location(new, st)
+            ast.fix_missing_locations(new)
+            return self.T([new] + rest, env, k, loop)
         if isinstance(st, ast.Delete):
             if len(st.targets) == 1 and isinstance(st.targets[0], ast.Subscript):
                 tg = st.targets[0]
